@@ -6,6 +6,7 @@
 //  FAULTFS_LOG=<file>       one line per intercepted call:  <k> <op> <path> <len> <result>
 //  FAULTFS_PLAN=k:ACT[,k:ACT...]   the environment's answer at intercepted call k:
 //        ENOSPC | EIO       fail the call with that errno (for write-like calls: nothing written)
+//        EPIPE EDQUOT EFBIG EAGAIN EROFS EBADF ENOMEM EACCES ETIMEDOUT ESTALE   likewise, with that errno
 //        EINTR              fail once with EINTR (the retry succeeds)
 //        SHORT1             write 1 byte, and fail every later write to the same fd with ENOSPC
 //        SHORTM             write len-1 bytes (later calls succeed)
@@ -51,6 +52,7 @@ static uint64_t detseed = 0;
 #define MAXPLAN 64
 static long plan_k[MAXPLAN];
 static int plan_act[MAXPLAN];
+static int plan_err[MAXPLAN]; // errno of an A_EIO entry named by another errno (EPIPE, EDQUOT, ...); 0 = EIO
 static int plan_n = 0;
 enum { A_NONE = 0, A_ENOSPC, A_EIO, A_EINTR, A_SHORT1, A_SHORTM, A_CRASH };
 #define MAXFD 4096
@@ -111,7 +113,10 @@ __attribute__((constructor)) static void init(void) {
             *colon = 0;
             plan_k[plan_n] = atol(tok);
             const char *a = colon + 1;
-            plan_act[plan_n] = !strcmp(a, "ENOSPC") ? A_ENOSPC : !strcmp(a, "EIO") ? A_EIO : !strcmp(a, "EINTR") ? A_EINTR
+            plan_err[plan_n] = 0;
+            static const struct { const char *n; int e; } errs[] = {{"EPIPE", EPIPE}, {"EDQUOT", EDQUOT}, {"EFBIG", EFBIG}, {"EAGAIN", EAGAIN}, {"EROFS", EROFS}, {"EBADF", EBADF}, {"ENOMEM", ENOMEM}, {"EACCES", EACCES}, {"ETIMEDOUT", ETIMEDOUT}, {"ESTALE", ESTALE}};
+            for (unsigned e = 0; e < sizeof errs / sizeof errs[0]; e++) if (!strcmp(a, errs[e].n)) plan_err[plan_n] = errs[e].e;
+            plan_act[plan_n] = plan_err[plan_n] ? A_EIO : !strcmp(a, "ENOSPC") ? A_ENOSPC : !strcmp(a, "EIO") ? A_EIO : !strcmp(a, "EINTR") ? A_EINTR
                              : !strcmp(a, "SHORT1") ? A_SHORT1 : !strcmp(a, "SHORTM") ? A_SHORTM : !strcmp(a, "CRASH") ? A_CRASH : A_NONE;
             plan_n++;
         }
@@ -160,9 +165,10 @@ static int fd_path(int fd, char *out, size_t n) {
     return 1;
 }
 
+static int cur_eio = EIO; // errno delivered by the A_EIO action of the call being intercepted
 static int action_for(long k) {
     for (int i = 0; i < plan_n; i++)
-        if (plan_k[i] == k) return plan_act[i];
+        if (plan_k[i] == k) { cur_eio = plan_err[i] ? plan_err[i] : EIO; return plan_act[i]; }
     return A_NONE;
 }
 
@@ -187,7 +193,7 @@ ssize_t write(int fd, const void *buf, size_t count) {
         if (fd >= 0 && fd < MAXFD && fd_dead[fd]) { logline("%ld write %s %ld ENOSPC(after-short)\n", k, path, (long)count); errno = ENOSPC; return -1; }
         switch (act) {
         case A_ENOSPC: logline("%ld write %s %ld ENOSPC\n", k, path, (long)count); errno = ENOSPC; return -1;
-        case A_EIO: logline("%ld write %s %ld EIO\n", k, path, (long)count); errno = EIO; return -1;
+        case A_EIO: logline("%ld write %s %ld EIO\n", k, path, (long)count); errno = cur_eio; return -1;
         case A_EINTR: logline("%ld write %s %ld EINTR\n", k, path, (long)count); errno = EINTR; return -1;
         case A_SHORT1:
             if (count > 1) {
@@ -232,7 +238,7 @@ ssize_t writev(int fd, const struct iovec *iov, int iovcnt) {
         long k;
         int act = intercept("writev", path, total, &k);
         if (act == A_ENOSPC || act == A_EIO || act == A_EINTR || (fd < MAXFD && fd_dead[fd])) {
-            errno = act == A_EIO ? EIO : act == A_EINTR ? EINTR : ENOSPC;
+            errno = act == A_EIO ? cur_eio : act == A_EINTR ? EINTR : ENOSPC;
             logline("%ld writev %s %ld errno=%d\n", k, path, total, errno);
             return -1;
         }
@@ -285,7 +291,7 @@ int rename(const char *oldpath, const char *newpath) {
         snprintf(both, sizeof both, "%s->%s", oldpath, newpath);
         int act = intercept("rename", both, 0, &k);
         if (act == A_ENOSPC || act == A_EIO) {
-            errno = act == A_EIO ? EIO : ENOSPC;
+            errno = act == A_EIO ? cur_eio : ENOSPC;
             logline("%ld rename %s 0 errno=%d\n", k, both, errno);
             return -1;
         }
@@ -303,7 +309,7 @@ static int open_common(const char *op, int dirfd, const char *path, int flags, m
     if (is_target) {
         int act = intercept(op, path, flags, &k);
         if (act == A_ENOSPC || act == A_EIO) {
-            errno = act == A_EIO ? EIO : ENOSPC;
+            errno = act == A_EIO ? cur_eio : ENOSPC;
             logline("%ld %s %s %d errno=%d\n", k, op, path, flags, errno);
             return -1;
         }
@@ -352,7 +358,7 @@ int close(int fd) {
             long k;
             int act = intercept("close", path, 0, &k);
             int r = real_close(fd);
-            if (act == A_EIO || act == A_ENOSPC) { errno = act == A_EIO ? EIO : ENOSPC; r = -1; }
+            if (act == A_EIO || act == A_ENOSPC) { errno = act == A_EIO ? cur_eio : ENOSPC; r = -1; }
             logline("%ld close %s 0 %d\n", k, path, r);
             if (fd >= 0 && fd < MAXFD) fd_dead[fd] = 0;
             return r;
@@ -420,7 +426,7 @@ int fsync(int fd) {
     if (target_dir && fd_path(fd, path, sizeof path) && under(path, target_dir, target_len)) {
         long k;
         int act = intercept("fsync", path, 0, &k);
-        if (act == A_EIO || act == A_ENOSPC) { errno = act == A_EIO ? EIO : ENOSPC; logline("%ld fsync %s 0 errno=%d\n", k, path, errno); return -1; }
+        if (act == A_EIO || act == A_ENOSPC) { errno = act == A_EIO ? cur_eio : ENOSPC; logline("%ld fsync %s 0 errno=%d\n", k, path, errno); return -1; }
         int r = real_fsync(fd);
         logline("%ld fsync %s 0 %d\n", k, path, r);
         return r;
